@@ -270,13 +270,10 @@ def run_concur(prop, tier, seed, model=True):
     import multiprocessing as mp
     from pv import concur
     t0 = time.time()
-    models = []
-    if model:
-        models.append(run_tx_model(prop, tier))
-    # size of the corpus: build it once here (cheap, needs the app)
     ctx = mp.get_context('spawn')
     with ctx.Pool(1) as pool:
-        ncorp = pool.apply(_corpus_size, (prop, tier, seed))
+        db0, corp = pool.apply(concur.corpus_with_state, (prop, tier, seed))
+    ncorp = len(corp)
     nw = 12 if tier == 'quick' else 14
     lim = CONCUR[prop][tier]
     jobs = []
@@ -296,7 +293,11 @@ def run_concur(prop, tier, seed, model=True):
         raise Machinery('no schedule was executed')
     violations, known = [], []
     outcomes = {}
+    observed = {}
+    complete_idx = set()
     for r in results:
+        observed.update(r['observed'])
+        complete_idx.update(r['complete_idx'])
         for k, v in r['outcomes'].items():
             outcomes[k] = outcomes.get(k, 0) + v
         for bad in r['bad']:
@@ -311,7 +312,49 @@ def run_concur(prop, tier, seed, model=True):
                 known.append((f, why))
             else:
                 violations.append((bad, why, sig))
-    races = sum(r['races'] for r in results)
+    # the model of the transaction structure over the same races, told what
+    # the implementation was seen to do
+    models = []
+    tx_extra = {}
+    if model:
+        races = []
+        for i, (label, areqs) in enumerate(corp):
+            races.append({'id': i + 1, 'db0': db0, 'reqs': areqs,
+                          'known': concur.race_known_tag(areqs, db0),
+                          'observed': [{'statuses': o['statuses'], 'final': o['final']}
+                                       for o in observed.get(i, [])]})
+        ok, st, report, tail = concur.run_tx_model(races)
+        if not ok:
+            raise Machinery('TLC found the properties violated on (or could not evaluate) spec/Tx.tla itself:\n' + tail)
+        st['model'] = 'TxRaces.cfg (Tx.tla over %d races)' % len(races)
+        models.append(st)
+        unexplained = 0
+        only_model = 0
+        for i, (label, areqs) in enumerate(corp):
+            obs = observed.get(i, [])
+            terms = report.get(i + 1, [])
+            hit = set()
+            for h, sts in terms:
+                hit.update(h)
+            for j, o in enumerate(obs):
+                if (j + 1) in hit:
+                    continue
+                unexplained += 1
+                tagged = races[i]['known']
+                bad = {'label': label, 'schedule': o['schedule'], 'statuses': o['statuses'],
+                       'reqs': areqs, 'db0': db0, 'final': o['final'],
+                       'monitors': ['TxConformance'],
+                       'model_outcomes': sorted(set(tuple(x[1]) for x in terms))}
+                sig = {'engine': 'concur', 'ops': '|'.join(sorted(r['op'] for r in areqs)),
+                       'monitors': 'TxConformance', 'tags': 'race-tagged-' + tagged if tagged else ''}
+                why = ('outcome %s (schedule %s) of race %s is not an outcome of any interleaving of spec/Tx.tla (model outcomes %s)'
+                       % (o['statuses'], o['schedule'], label, bad['model_outcomes']))
+                violations.append((bad, why, sig))
+            if i in complete_idx:
+                only_model += sum(1 for h, sts in terms if not h)
+        tx_extra = {'observed_outcomes_not_admitted_by_Tx': unexplained,
+                    'Tx_terminal_states_never_observed_in_exhausted_races': only_model}
+    races_n = sum(r['races'] for r in results)
     cov = {
         'states': sum(m['states'] for m in models),
         'transitions': sum(m['transitions'] for m in models),
@@ -320,33 +363,20 @@ def run_concur(prop, tier, seed, model=True):
         'evaluations': n,
         'distinct_nontrivial': len(outcomes),
         'rule': 'a case is one executed interleaving (at database-transaction granularity) of 2 or 3 real requests; distinct non-trivial = distinct (race, vector of statuses) outcomes observed',
-        'races': races,
+        'races': races_n,
         'races_explored_completely': sum(r['complete'] for r in results),
         'samples': results[0]['sample'],
         'outcomes': dict(sorted(outcomes.items())),
         'exhaustive': False,
     }
+    cov.update(tx_extra)
     if not model:
         cov.pop('states')
         cov.pop('transitions')
     return finish(prop, tier, seed, cov, violations, known, t0, [
         'each database transaction is atomic and isolated (the scheduler runs one top-level transaction at a time on SQLite); MySQL/PostgreSQL isolation anomalies are outside the property\'s own quantifier',
         'interleavings are explored depth-first with a partial-order reduction that only skips schedules differing in the order of adjacent read-only transactions; races whose schedule count exceeds the tier limit are cut off (races_explored_completely reports how many were exhausted)',
-        'the oracle is API!Apply (TraceSerial.tla): serial order of the effective successful requests, commit-time generation guards'])
-
-
-def _corpus_size(prop, tier, seed):
-    from pv.app import get_app
-    from pv import trace, scenarios, concur
-    rec = trace.Recorder(get_app())
-    rec.new_history()
-    s = scenarios.S(rec, random.Random(0))
-    concur.base_state(s)
-    return len(concur.corpus(prop, s, tier, random.Random(seed)))
-
-
-def run_tx_model(prop, tier):
-    raise Machinery('Tx model not built yet')
+        'two oracles: API!Apply alone (TraceSerial.tla: serial order of the effective successful requests, commit-time generation guards) and the model of the transaction structure (Tx.tla: every observed outcome must be an outcome of some interleaving of the model)'])
 
 
 def run_check(prop, tier, seed, model=True):
